@@ -19,11 +19,20 @@ UNIT_TRUSTED = {
     ],
 }
 
+UNIT_TRUSTED["daemon_gr"] = [
+    "prelude p_gr: std::mem::replace, Notification::is_hard_reset == (self is CeaseHardReset); R11 helpers (assumed std iterator algebra): vx_pair_keys_to_set, vx_vec_into_set, vx_set_into_vec; R12 helpers vx_filter_collect / vx_set_filter_collect (predicate closures verified at the call site)",
+    "prelude p_bgp_types / p_std as for daemon_fsm; HashSet<Family, fnv> obeys vstd's hash-set model",
+    "A-C10-1: the async driver (session_loop / apply_disconnect / timers in daemon/src/event/mod.rs) performs exactly the deletions and timer operations GrState outputs and feeds it every drop / establish / EOR / timer event; known false by inspection at two call sites (DESIGN.md §4 C10): families_to_drop_on_disconnect is evaluated before gr_on_disconnect decides, and apply_disconnect's non-GR branch cancels a pending restart timer after a failed reconnection attempt",
+    "A-C10-2: redrop_consistent — a session that drops while families of an earlier cycle are still covered carries GR/LLGR parameters that include them",
+    "Table::{drop_stale,restale,…} actually delete / mark the routes (note T, not under contract)",
+]
+
 # minimum number of functions that must produce obligations / of must-fail twins that must run
-FLOORS = {"daemon_fsm": 30}
-TWIN_FLOORS = {"daemon_fsm": 8}
+FLOORS = {"daemon_fsm": 30, "daemon_gr": 4}
+TWIN_FLOORS = {"daemon_fsm": 8, "daemon_gr": 3}
 
 PLAN = {
     "C07": {"verus": ["daemon_fsm"], "level": "proof"},
     "C08": {"verus": ["daemon_fsm"], "level": "proof"},
+    "C10": {"verus": ["daemon_gr"], "level": "proof"},
 }
